@@ -316,6 +316,7 @@ class Interp:
         self.assumptions = set()
         self.tables = {}
         self.max_loop = 5000
+        self.cond_depth = 0  # > 0 while statements run under a condition that could not be decided (the other way they are skipped)
 
     def note(self, kind, where, detail):
         self.events.append((kind, where, detail))
@@ -449,7 +450,7 @@ class Interp:
         if fq in ("itertools.groupby", "operator.itemgetter", "itertools.accumulate", "itertools.product", "itertools.chain", "itertools.chain.from_iterable", "itertools.repeat", "itertools.islice"):
             return Fn("lib", name=fq)
         if fq in ("copy.deepcopy", "copy.copy"):
-            return Fn("lib", name="identity")
+            return Fn("lib", name=fq)
         if fq in ("re.compile", "re.split", "re.sub", "re.subn", "re.match", "re.fullmatch", "re.search", "re.findall", "re.escape"):
             return Fn("lib", name=fq)
         if root == "re" and last.isupper():
@@ -1179,6 +1180,15 @@ class Interp:
                         raise _Raise("IndexError: list assignment index out of range", ["IndexError", "LookupError", "Exception", "BaseException", "object"])
                     return
                 if isinstance(obj, DictS):
+                    if self.cond_depth > 0 and (k.v not in obj.items or k.v in obj.optional):
+                        # stored under a condition that could not be decided: the entry may or may not exist afterwards
+                        if self.strict:
+                            raise ShapeError(f"item store {norm(target)[:50]} under a condition that cannot be decided")
+                        obj.items[k.v] = value
+                        obj.optional.add(k.v)
+                        return
+                    if self.cond_depth > 0 and self.strict and not (obj.items.get(k.v) is value):
+                        raise ShapeError(f"item store {norm(target)[:50]} under a condition that cannot be decided")
                     obj.items[k.v] = value
                     obj.optional.discard(k.v)
                     return
@@ -1297,9 +1307,60 @@ class Interp:
             else:
                 self.branch(st, sc, yields)
             return
+        if isinstance(st, ast.Match):
+            subject = self.eval(st.subject, sc)
+            for case in st.cases:
+                binds = {}
+                m = self._match_pattern(case.pattern, subject, sc, binds)
+                if m is None:
+                    raise ShapeError(f"match: whether {short(case.pattern, 40)} matches {subject!r:.40} cannot be decided")
+                if not m:
+                    continue
+                for k_, v_ in binds.items():
+                    sc.vars[k_] = v_
+                if case.guard is not None:
+                    g = self.truth(self.eval(case.guard, sc))
+                    if g is None:
+                        raise ShapeError(f"match: guard {short(case.guard, 40)} cannot be decided")
+                    if not g:
+                        continue
+                self.exec_block(case.body, sc, yields)
+                return
+            return
         if isinstance(st, ast.For):
             it = self.eval(st.iter, sc)
+            if isinstance(it, ListOf) and not self.strict:
+                # a loop over a list of symbolic length: the body is run once on the symbolic element; a list that is empty before
+                # the loop and gets exactly one append per iteration becomes the list of that many such elements; anything else a
+                # list undergoes in the body is not modelled
+                rec = {}
+                self._sym_appends = getattr(self, "_sym_appends", [])
+                self._sym_appends.append(rec)
+                depth0 = self.cond_depth
+                try:
+                    self.bind(st.target, it.elem, sc)
+                    try:
+                        self.exec_block(st.body, sc, yields)
+                    except _Continue:
+                        pass
+                    except _Break:
+                        raise ShapeError("`break` in a loop over a list of symbolic length")
+                finally:
+                    self._sym_appends.pop()
+                    self.cond_depth = depth0
+                for lst, count, before in rec.values():
+                    if before == 0 and count == 1 and len(lst.elts) == 1:
+                        elem = lst.elts[0]
+                        lst.__class__ = ListOf
+                        lst.__dict__.clear()
+                        lst.__dict__.update(ListOf(elem, it.n, it.maybe_empty).__dict__)
+                    else:
+                        raise ShapeError(f"a list is appended to {count} time(s) per iteration of a loop over a list of symbolic length (it held {before} element(s) before): not modelled")
+                if st.orelse:
+                    self.exec_block(st.orelse, sc, yields)
+                return
             broke = False
+            depth0 = self.cond_depth
             for item in self.iterate(it, st.iter):
                 self.bind(st.target, item, sc)
                 try:
@@ -1309,6 +1370,8 @@ class Interp:
                 except _Break:
                     broke = True
                     break
+                finally:
+                    self.cond_depth = depth0
             if not broke and st.orelse:
                 self.exec_block(st.orelse, sc, yields)
             return
@@ -1412,6 +1475,50 @@ class Interp:
             return
         raise ShapeError(f"statement outside the modelled fragment: {short(st, 60)}")
 
+    def _match_pattern(self, pat, subject, sc, binds):
+        """structural pattern matching on a model value -> True / False / None (undecided); captures go to ``binds``"""
+        from .shapes_lib import isinstance_rule
+        if isinstance(pat, ast.MatchAs):
+            if pat.pattern is not None:
+                m = self._match_pattern(pat.pattern, subject, sc, binds)
+                if m is not True:
+                    return m
+            if pat.name is not None:
+                binds[pat.name] = subject
+            return True
+        if isinstance(pat, ast.MatchOr):
+            res = [self._match_pattern(p, subject, sc, binds) for p in pat.patterns]
+            if any(r is True for r in res):
+                return True
+            return None if any(r is None for r in res) else False
+        if isinstance(pat, ast.MatchSingleton):
+            if isinstance(subject, Const):
+                return subject.v is pat.value
+            return False if isinstance(subject, (DictS, ListLit, TupS, Obj, SetS)) else None
+        if isinstance(pat, ast.MatchValue):
+            v = self.eval(pat.value, sc)
+            if isinstance(v, Const) and isinstance(subject, Const):
+                return bool(subject.v == v.v)
+            return False if isinstance(subject, (DictS, ListLit, TupS, Obj, SetS)) and isinstance(v, Const) else None
+        if isinstance(pat, ast.MatchClass):
+            r = isinstance_rule(self, subject, self.eval(pat.cls, sc))
+            if not isinstance(r, Const):
+                return None
+            if not r.v:
+                return False
+            if pat.patterns:
+                return None  # positional sub-patterns (__match_args__) are not modelled
+            for name, p in zip(pat.kwd_attrs, pat.kwd_patterns):
+                try:
+                    attr = self.getattr(subject, name)
+                except _Raise:
+                    return False
+                m = self._match_pattern(p, attr, sc, binds)
+                if m is not True:
+                    return m
+            return True
+        return None
+
     def exception_value(self, exc, sc, classes):
         """the exception object a raise statement creates, as far as it can be evaluated (args of builtin exception classes,
         objects built by stubs, re-raised handler variables)"""
@@ -1488,11 +1595,16 @@ class Interp:
         outcomes = []
         for i_arm, arm in enumerate((st.body, st.orelse)):
             s2 = sc.child()
+            self.cond_depth += 1
             try:
                 self.exec_block(arm, s2, yields)
                 outcomes.append(("fall", s2.vars))
             except _Return as r:
                 outcomes.append(("ret", r.v))
+            except _Continue:
+                outcomes.append(("continue", None))
+            except _Break:
+                raise ShapeError(f"`break` under a condition that cannot be decided ({short(st.test, 50)}): whether the loop goes on is not known")
             except _Raise as ex:
                 outcomes.append(("raise", None))
                 # a raise guarded by a data-dependent test: kept for rules that ask on which inputs it fires
@@ -1504,8 +1616,17 @@ class Interp:
                         break
                     s_ = s_.parent
                 self.cond_raises.append({"test": st.test, "scope": sc, "when": i_arm == 0, "where": owner, "what": ex.what})
+            finally:
+                self.cond_depth -= 1
         rets = [o[1] for o in outcomes if o[0] == "ret"]
         falls = [o[1] for o in outcomes if o[0] == "fall"]
+        conts = [o for o in outcomes if o[0] == "continue"]
+        if conts and not falls and not rets:
+            raise _Continue()
+        if conts and falls:
+            # one arm goes on to the next iteration, the other falls through: the rest of this iteration runs conditionally (the
+            # enclosing loop restores the depth when the iteration ends)
+            self.cond_depth += 1
         if rets and not falls:
             raise _Return(Choice(rets) if len(rets) > 1 else rets[0])
         if rets and falls:
